@@ -1506,6 +1506,19 @@ func (b *bounds) callbackIndex(site ast.Node, v types.Object, want string) (bool
 			if ast.Unparen(a) == ast.Expr(lit) {
 				outer, q = c, i
 			}
+			// the literal may be bound to a local first (at := func(i int) T {…}; collect(n, at))
+			if aid, ok := ast.Unparen(a).(*ast.Ident); ok && boundFuncLit(b.info, b.fd, aid) == lit {
+				uses := 0
+				ast.Inspect(b.fd, func(m ast.Node) bool {
+					if uid, ok := m.(*ast.Ident); ok && b.info.Uses[uid] == b.info.ObjectOf(aid) {
+						uses++
+					}
+					return true
+				})
+				if uses == 1 {
+					outer, q = c, i
+				}
+			}
 		}
 		return true
 	})
@@ -1857,6 +1870,10 @@ func (b *bounds) lastElemOK(f *cfgx.Func, x *ast.IndexExpr) (bool, string) {
 	if !reachable(f, x, lenOracleIn(b.info, b.fd, types.ExprString(x.X), c-1)) {
 		return true, fmt.Sprintf("unreachable when len(%s) < %d (dominating length guard)", types.ExprString(x.X), c)
 	}
+	// the statement just before, in the same block, appended at least c elements to the same slice
+	if k := b.appendedJustBefore(x); k >= c {
+		return true, fmt.Sprintf("the statement before appends %d element(s) to %s", k, types.ExprString(x.X))
+	}
 	if c != 1 {
 		return false, ""
 	}
@@ -1914,6 +1931,50 @@ func (b *bounds) lastElemOK(f *cfgx.Func, x *ast.IndexExpr) (bool, string) {
 		}
 	}
 	return false, ""
+}
+
+// appendedJustBefore: the site sits in a statement whose predecessor in the same block is
+// `x = append(x, e1, …, ek)` for the slice x the site indexes; returns k.
+func (b *bounds) appendedJustBefore(x *ast.IndexExpr) int64 {
+	var k int64
+	target := b.norm(x.X)
+	ast.Inspect(b.fd.Body, func(n ast.Node) bool {
+		blk, ok := n.(*ast.BlockStmt)
+		if !ok {
+			return true
+		}
+		for i, st := range blk.List {
+			if i == 0 || !within(st, x) {
+				continue
+			}
+			as, ok := blk.List[i-1].(*ast.AssignStmt)
+			if !ok || len(as.Lhs) != 1 || len(as.Rhs) != 1 || b.norm(as.Lhs[0]) != target {
+				continue
+			}
+			call, ok := ast.Unparen(as.Rhs[0]).(*ast.CallExpr)
+			if !ok || call.Ellipsis.IsValid() || len(call.Args) < 2 {
+				continue
+			}
+			id, ok := ast.Unparen(call.Fun).(*ast.Ident)
+			if !ok {
+				continue
+			}
+			if bi, isB := b.info.Uses[id].(*types.Builtin); isB && bi.Name() == "append" && b.norm(call.Args[0]) == target {
+				// nothing between the append and the site writes x: the site is in the very next statement,
+				// and that statement must not assign x before the site (a plain use)
+				if as2, isAs := st.(*ast.AssignStmt); isAs {
+					for _, l := range as2.Lhs {
+						if b.norm(l) == target {
+							return true
+						}
+					}
+				}
+				k = int64(len(call.Args) - 1)
+			}
+		}
+		return true
+	})
+	return k
 }
 
 // resultLenIsParamLen: the moq function returns a slice it made with the Len() of its i-th parameter and never re-slices.
@@ -2359,6 +2420,22 @@ func (b *bounds) sliceMore(f *cfgx.Func, x *ast.SliceExpr) (bool, string) {
 		}
 		if isLenOfX && b.nonNeg(x.High, 0) {
 			return true, "the slice ends at a minimum that includes len(x), never negative"
+		}
+	}
+	// x[:len(x)-c] (dropping the last c elements) where len(x) >= c: by how x was produced, or because the
+	// site is unreachable for a shorter x (a dominating guard, the condition of the loop it sits in)
+	if x.Low == nil && x.High != nil && !x.Slice3 {
+		if be, ok := b.unfold(x.High).(*ast.BinaryExpr); ok && be.Op == token.SUB {
+			if c, ok := b.constInt(be.Y); ok && c >= 1 {
+				if _, same := intersects(b.lenAlternatives(be.X), []string{"len(" + b.norm(x.X) + ")"}); same {
+					if n, why := b.minLen(x.X); n >= c {
+						return true, why
+					}
+					if !reachable(f, x, lenOracleIn(b.info, b.fd, types.ExprString(x.X), c-1)) {
+						return true, fmt.Sprintf("unreachable when len(%s) < %d (dominating length guard)", types.ExprString(x.X), c)
+					}
+				}
+			}
 		}
 	}
 	need := int64(0)
